@@ -13,6 +13,8 @@ import itertools
 import os
 import shutil
 
+from verif.oracles.c16_memo import expand_content
+
 
 def R(i):
     return {'r': i}
@@ -49,7 +51,15 @@ def comp(name, stage, exe, args, refs, **kw):
     return c
 
 
-INST0 = {'subdir': 'w', 'pkg': 'pkg', 'name': None, 'timestamp': True, 'reload': None, 'mtime': None}
+INST0 = {'subdir': 'w', 'pkg': 'pkg', 'name': None, 'timestamp': True, 'reload': None, 'mtime': None, 'check_exe': False}
+# executables shipped in the bin directory of the package, found through an environment whose PATH starts with
+# $INSTANCE_DIR/bin; the experiment is validated with checkExecutables=True (what elaunch does)
+TOOLS_ENV = {'tools': {'DEFAULTS': 'PATH:LD_LIBRARY_PATH', 'PATH': '$INSTANCE_DIR/bin:$PATH'}}
+SCRIPTS = {'bin/run.sh': '#!/bin/sh\necho run\n', 'bin/use.sh': '#!/bin/sh\necho use\n', 'bin/other.sh': '#!/bin/sh\necho other\n',
+           'bin/run2.sh': '#!/bin/sh\necho run2\n'}
+BIG_SIZES_QUICK = [4096, 4097, 65536, 65537, 204800]
+BIG_SIZES_THOROUGH = [8192, 65535, 70000, 131073, 1048577]
+THOROUGH = False
 BIG = ''.join(chr(97 + (i * 7) % 26) for i in range(5000))
 
 
@@ -98,6 +108,18 @@ def bases():
     # a file outside of the instance (absolute path)
     out['ext'] = _world(
         [comp('C', 0, 'cat', toks('-n', R(0), 'lit'), [ref(None, 'EXT/a/in.txt')])], 'C', ext={'a/in.txt': 'hello', 'b/in.txt': 'hello'})
+    # pathless executables that resolve to scripts INSIDE the instance; executables are checked (resolved)
+    w = _world(
+        [comp('C', 0, 'run.sh', toks('-n', R(0), 'lit'), [ref(None, 'data/in.txt'), ref(None, 'data/aux.txt', 'copy')], env='tools')],
+        'C', files=dict(SCRIPTS, **{'data/in.txt': 'hello', 'data/aux.txt': 'aux'}))
+    w['environments'] = copy.deepcopy(TOOLS_ENV); w['inst']['check_exe'] = True
+    out['bin'] = w
+    w = _world(
+        [comp('P', 0, 'run.sh', toks('-i', R(0)), [ref(None, 'data/in.txt')], env='tools'),
+         comp('C', 1, 'use.sh', toks('-n', R(0), 'lit'), [ref('P', 'out.txt'), ref(None, 'data/aux.txt', 'copy')], env='tools')],
+        'C', files=dict(SCRIPTS, **{'data/in.txt': 'hello', 'data/aux.txt': 'aux'}), outputs={'P': {'out.txt': 'produced'}})
+    w['environments'] = copy.deepcopy(TOOLS_ENV); w['inst']['check_exe'] = True
+    out['binone'] = w
     return out
 
 
@@ -124,7 +146,16 @@ def _rename(w, old, new):
         w['target'] = new
 
 
+def _alt_exes(w, exe):
+    """other executables for a component: shipped scripts when the world ships its executables, made-up names otherwise"""
+    if isinstance(exe, str) and ('bin/' + exe) in w['files']:
+        return [k[4:] for k in sorted(w['files']) if k.startswith('bin/') and k[4:] != exe][:2]
+    return ['tac', 'ca', 'catt', 'cat -n']
+
+
 def _flip(s, how):
+    if isinstance(s, dict):
+        s = expand_content(s)
     if how == 'first':
         return chr(ord(s[0]) ^ 1) + s[1:] if s else 'x'
     if how == 'last':
@@ -158,7 +189,7 @@ def variations(base_name, w0):
     producers.sort(key=lambda n: [c['name'] for c in w0['comps']].index(n))
 
     # ---------- aspects of the target the statement names as relevant
-    for e in ('tac', 'ca', 'catt', 'cat -n'):
+    for e in _alt_exes(w0, t0['exe']):
         w = new(); _target(w)['exe'] = e
         yield 'exe', 'exe=%s' % e, w
     lit_idx = [i for i, p in enumerate(t0['args']) if isinstance(p, str)]
@@ -192,6 +223,15 @@ def variations(base_name, w0):
         yield 'content', 'content[ref%d]:5000-bytes' % ri, big
         w = copy.deepcopy(big); _set_content(w, r, lambda s: _flip(s, 'last'))
         yield 'content', 'content[ref%d]:5000-bytes-last-flipped' % ri, w, 'content[ref%d]:5000-bytes' % ri
+        # long files: a difference anywhere (block boundaries of the reader, after 64 KiB, at the very end) is a difference
+        for n in BIG_SIZES_QUICK + (BIG_SIZES_THOROUGH if THOROUGH else []):
+            w = new(); _set_content(w, r, lambda s: {'size': n, 'flip': []})
+            yield 'bigcontent', 'content[ref%d]:%d-bytes' % (ri, n), w
+            for lbl, pos in (('last', [-1]), ('at-65536', [65536]), ('middle', [n // 2])):
+                if pos[0] >= n or (lbl == 'middle' and n < 65537):
+                    continue
+                w = new(); _set_content(w, r, lambda s: {'size': n, 'flip': pos})
+                yield 'bigcontent', 'content[ref%d]:%d-bytes-%s-changed' % (ri, n, lbl), w, 'content[ref%d]:%d-bytes' % (ri, n)
     # reference method
     for ri, r in enumerate(t0['refs']):
         in_args = any(isinstance(p, dict) and p.get('r') == ri for p in t0['args'])
@@ -237,10 +277,10 @@ def variations(base_name, w0):
 
     # ---------- producers (chain): definition only, content only, both
     for pn in producers:
-        for what in ('exe', 'args', 'image'):
+        for what in ('exe', 'args') if w0['inst'].get('check_exe') else ('exe', 'args', 'image'):
             w = new(); p = _get(w, pn)
             if what == 'exe':
-                p['exe'] = p['exe'] + '2'
+                p['exe'] = _alt_exes(w, p['exe'])[0] if ('bin/%s' % p['exe']) in w['files'] else p['exe'] + '2'
             elif what == 'args':
                 p['args'] = p['args'] + [' --more']
             else:
@@ -266,6 +306,7 @@ def variations(base_name, w0):
         cands = [r for r in _target(w)['refs'] if r['prod'] is not None and r['path'] is not None]
         if cands:
             r = cands[0]; pn = r['prod']
+            w['remove'] = ['%s/renamed.txt' % pn if x == '%s/%s' % (pn, r['path']) else x for x in w['remove']]
             w['outputs'][pn]['renamed.txt'] = w['outputs'][pn].pop(r['path']); r['path'] = 'renamed.txt'
             yield 'produced', 'produced:file-renamed-same-content', w
     if base_name == 'two' and {'A-B', 'B'} <= set(producers):
@@ -354,6 +395,10 @@ def variations(base_name, w0):
                       ('reloaded-from-instance', {'reload': 'reload'}), ('instance-moved-then-reloaded', {'reload': 'moved'})):
         w = new(); w['inst'].update(inst)
         yield 'location', 'instance:%s' % lbl, w
+    # executables checked (= resolved to absolute paths by validateExperiment(checkExecutables=True)) or not
+    if base_name in ('direct', 'ext', 'bin', 'binone'):
+        w = new(); w['inst']['check_exe'] = not w0['inst'].get('check_exe')
+        yield 'checkexe', 'instance:executables-%s' % ('checked' if w['inst']['check_exe'] else 'not-checked'), w
     for lbl, mt in (('mtime=2001', 1000000000), ('mtime=2033', 2000000000)):
         w = new(); w['inst']['mtime'] = mt
         yield 'time', 'time:%s' % lbl, w
@@ -482,7 +527,7 @@ def populate_atomically(location, files):
             continue
         tmp = '%s.%d.tmp' % (full, os.getpid())
         with open(tmp, 'w') as f:
-            f.write(content)
+            f.write(expand_content(content))
         os.replace(tmp, full)
 
 
@@ -513,6 +558,8 @@ def build_doc(world, root):
                 args += p
         exe = '%%(%s)s' % c['exe']['v'] if isinstance(c['exe'], dict) else c['exe']
         d = {'name': c['name'], 'stage': c['stage'], 'command': {'executable': exe, 'arguments': args}, 'references': refs}
+        if c.get('env'):
+            d['command']['environment'] = c['env']
         if c.get('vars'):
             d['variables'] = dict(c['vars'])
         if c.get('rr'):
@@ -533,6 +580,8 @@ def build_doc(world, root):
             d['resourceManager'] = rm
         comps.append(d)
     doc = {'components': comps}
+    if world.get('environments'):
+        doc['environments'] = {'default': copy.deepcopy(world['environments'])}
     gv = dict(world.get('gvars') or {})
     sv = {int(k): dict(v) for k, v in (world.get('svars') or {}).items()}
     if gv or sv:
@@ -543,32 +592,40 @@ def build_doc(world, root):
 def realise(world, root):
     """Builds the instance below root, returns {component name: {'strong','fuzzy','info','info_fuzzy'}}."""
     import experiment.model.data
-    from verif.gen.pkg import experiment_from_doc, populate_files
+    import experiment.model.storage
+    from verif.gen.pkg import write_package, populate_files
     inst = world['inst']
     location = os.path.join(root, inst['subdir'])
     os.makedirs(location, exist_ok=True)
     extd = ext_dir(world, root)
     populate_atomically(extd, world.get('ext') or {})
-    files = {k: v for k, v in (world.get('files') or {}).items() if not k.startswith('input/')}
+    files = {k: expand_content(v) for k, v in (world.get('files') or {}).items() if not k.startswith('input/')}
     inputs = []
     for k, v in (world.get('files') or {}).items():
         if k.startswith('input/'):
-            populate_files(os.path.join(root, 'given-inputs'), {k[6:]: v})
+            populate_files(os.path.join(root, 'given-inputs'), {k[6:]: expand_content(v)})
             inputs.append(os.path.join(root, 'given-inputs', k[6:]))
     doc = build_doc(world, root)
     kw = {}
     if inst.get('name'):
         kw['instance_name'] = inst['name']
+    check_exe = bool(inst.get('check_exe'))
+    package_path = write_package(doc, location, files, name=inst['pkg'])
+    for k in files:
+        if k.startswith('bin/'):
+            os.chmod(os.path.join(package_path, k), 0o755)
     try:
-        exp = experiment_from_doc(doc, location, extra_files=files, name=inst['pkg'], timestamp=bool(inst.get('timestamp', True)),
-                                  inputs=inputs or None, **kw)
+        pkg = experiment.model.storage.ExperimentPackage.packageFromLocation(package_path)
+        exp = experiment.model.data.Experiment.experimentFromPackage(
+            pkg, location=location, timestamp=bool(inst.get('timestamp', True)), inputs=inputs or None, **kw)
+        exp.validateExperiment(checkExecutables=check_exe)
     except Exception as e:     # the loader / validator of the product refuses the workflow: the world is not judged
         raise Rejected('%s: %s' % (type(e).__name__, ' '.join(str(e).split())[:300]))
     idir = exp.instanceDirectory
     by_name = {c['name']: c for c in world['comps']}
     for cn, outs in (world.get('outputs') or {}).items():
         wd = idir.workingDirectoryForComponent(by_name[cn]['stage'], cn)
-        populate_files(wd, outs)
+        populate_files(wd, {k: expand_content(v) for k, v in outs.items()})
     for x in world.get('remove') or []:
         if x.startswith('EXT/'):
             os.remove(os.path.join(extd, x[4:]))
@@ -593,6 +650,11 @@ def realise(world, root):
             shutil.move(loc, new)
             loc = new
         exp = experiment.model.data.Experiment.experimentFromInstance(loc)
+        if check_exe:
+            try:
+                exp.validateExperiment(checkExecutables=True)
+            except Exception as e:
+                raise Rejected('after reload %s: %s' % (type(e).__name__, ' '.join(str(e).split())[:300]))
     g = exp.graph
     out = {}
     specs = {}
